@@ -16,6 +16,7 @@ TRUSTED = [
     "RUNTIME FACTS NOT PROVED: stack depth, wall-clock time, allocation failure; chumsky, serde_json, sqlparser, sqlformat internals; the ~440 unwrap/expect/index sites outside the modelled functions are counted against a baseline, not proved unreachable",
 ]
 
+LINEAR_FAMILIES = ("paren", "negparen", "call", "case", "fstring-holes", "comments", "newlines", "close-paren", "quotes-open", "dots", "at", "func-curry")
 DIALECTS = ["sql.generic", "sql.sqlite", "sql.postgres", "sql.mssql", "sql.mysql", "sql.bigquery", "sql.clickhouse",
             "sql.duckdb", "sql.snowflake", "sql.ansi", "sql.glaredb", "sql.redshift"]
 I64MAX = 9223372036854775807
@@ -340,9 +341,11 @@ def run():
         for d in depths:
             if fam in ("group", "loop", "joins", "lets", "appends", "transforms", "filters", "tuple-wide", "module") and d > 400:
                 continue
+            if d > 1500 and fam not in LINEAR_FAMILIES:
+                continue            # quadratic in the depth: tens of seconds at 5000 on a shared machine
             if fam == "open-paren" and d > 10:
                 continue            # exponential parse time (finding H1): probed separately below
-            if fam in ("group", "loop") and d > 100 and not ck.thorough:
+            if fam in ("group", "loop") and d > 100:
                 continue            # cubic: seconds at depth 400
             s = mk(d)
             for e in ("tokens", "compile"):
